@@ -52,9 +52,14 @@ def same_locus(f, g, base, timeout_ms=10000):
     return True
 
 
+_TRS = {}      # TR cards of the deck under analysis (number -> normalised 12 entries), set by bc_problems
+
+
 def card_locus(s, P, ctx):
     """implicit function whose zero set is the locus of an (elementary) surface card; one-sheet cones: the cone."""
     params = [n.N(v) for v in s.params]
+    if getattr(s, 'tr', None):
+        P = ref.aux_point(_TRS[s.tr], P)
     mn = s.mn
     if mn[0] == 'K' and len(params) in (3, 5):
         params = params[:-1]
@@ -106,6 +111,9 @@ def bounding_surfaces(t4):
 def bc_problems(deck, t4, base, P, ctx):
     """list of (kind, text) problems of the BOUNDARY_CONDITION block against the deck model."""
     rf = dk.Reference(deck, ctx)
+    _TRS.clear()
+    for num in deck.trs:
+        _TRS[num] = rf.tr_by_number(num)
     pbs = []
     flagged = [s for s in deck.surfs if s.bc]
     ev_surf = {}
@@ -154,9 +162,8 @@ def bc_problems(deck, t4, base, P, ctx):
                                    and same_locus(card_locus(s2, P, ctx), f_s, base) for s2 in flagged):
             continue
         if not bounds:
-            if matched[s.id]:
-                pbs.append(('bc-count', 'flagged surface %s%d bounds no written cell but has %d entries' %
-                            (s.bc, s.id, len(matched[s.id])), (s.id, len(matched[s.id]))))
+            # the property says nothing about a flagged surface that bounds no converted cell: an entry for it is
+            # acceptable as long as it designates a defined surface with that locus (checked above)
             continue
         if conv and len(matched[s.id]) != 1:
             pbs.append(('bc-count', 'flagged surface %s%d bounds converted cell(s) %s but has %d entries' %
@@ -204,6 +211,21 @@ def make(task):
             flags += 1
     if not flags:
         deck.surfs[-1].bc = '*'
+    if variant == 'trquad':
+        # a flagged quadric (or plane) carrying a TR number, bounding the first cell
+        nid = max(s_.id for s_ in deck.surfs) + 1
+        kind = rnd.choice(['sq', 'gq', 'sq', 'px'])
+        r2 = Fr(rnd.choice([16, 25]))
+        if kind == 'sq':
+            prm = [Fr(1), Fr(1), Fr(2), Fr(0), Fr(0), Fr(0), -r2, Fr(0), Fr(0), Fr(0)]
+        elif kind == 'gq':
+            prm = [Fr(1), Fr(2), Fr(1), Fr(0), Fr(0), Fr(0), Fr(0), Fr(0), Fr(0), -r2]
+        else:
+            prm = [Fr(4)]
+        shift = gen.V('tq')
+        deck.trs[7] = ([shift, Fr(rnd.choice([0, 1])), Fr(0)] + ([] if rnd.random() < 0.5 else [Fr(0), Fr(1), Fr(0), Fr(-1), Fr(0), Fr(0), Fr(0), Fr(0), Fr(1)]), False)
+        deck.surfs.append(dk.Surf(nid, kind, prm, 7, bc=rnd.choice(['*', '+'])))
+        deck.cells[0].expr = ('and', deck.cells[0].expr, ('s', -nid))
     if variant == 'unused':
         deck.surfs.append(dk.Surf(len(deck.surfs) + 1, 'pz', [Fr(7)], bc='*'))
     if variant == 'macro':
@@ -262,7 +284,7 @@ def run(tier):
     rep = Report(PROP, tier, 'translation_validation')
     rep.functions = FUNCTIONS
     base = seed() * 104729
-    variants = ['dedup', 'nodedup', 'dedup', 'unused', 'macro', 'dedup']
+    variants = ['dedup', 'nodedup', 'dedup', 'unused', 'macro', 'dedup', 'trquad', 'trquad']
     nd = 48 if tier == 'quick' else 1500
     tasks = [(base + i, 2 + i % 2 + (tier != 'quick') * (i % 3 == 0), 2 + i % 2, variants[i % len(variants)]) for i in range(nd)]
     for r in run_pool(worker, tasks):
@@ -270,7 +292,7 @@ def run(tier):
     rep.explanation = ('Partition decks with reflecting/white flags and symbolic surface parameters through the real pipeline; the written '
                        'BOUNDARY_CONDITION block is compared with the flagged cards (entry kind, defined SURF id, same zero set decided '
                        'under the path condition), with and without de-duplication, with unused flagged surfaces and flagged macrobodies.')
-    rep.bounds = {'decks': len(tasks), 'surfaces': '2-4 of PX PY SO CZ + duplicates', 'variants': sorted(set(variants)),
+    rep.bounds = {'decks': len(tasks), 'surfaces': '2-4 of PX PY SO CZ KZ(one sheet) + duplicates; a flagged SQ / GQ / PX carrying a TR number', 'variants': sorted(set(variants)),
                   'outside': ['flags on cones/tori/quadrics', 'flagged surfaces inside universes']}
     rep.assumptions = ['TRIPOLI-4 ALL_COMPLETE <kind> <surface id> semantics', 'REFLECTION for *, COSINUS for +']
     rep.cov['rule'] = 'program = one generated deck; case = (deck, path); distinct = distinct (deck, path condition)'
